@@ -86,9 +86,23 @@ def gen(rng):
     main = []
     nblocks = rng.randint(1, 4)
     for b in range(nblocks):
-        kind = rng.choice(["main", "loop", "helper", "object", "main"])
+        kind = rng.choice(["main", "loop", "helper", "object", "main", "multi"])
         if p.nq >= 7:
             break
+        if kind == "multi":
+            # one declaration statement, several declarators: every name is tracked
+            names = ["d%d%s" % (b, c) for c in "abc"[: rng.randint(2, 3)]]
+            main.append("    @tracked qubit %s;" % ", ".join(names))
+            for nm in names:
+                h = p.nh; p.nh += 1
+                p.nq += 1
+                p.toks += ["D", "1"]
+                if rng.random() < 0.7:
+                    main.append("    " + p.gate(nm, h, 0))
+                if rng.random() < 0.8:
+                    main.append("    " + p.measure(nm, h, 0, echo=(rng.random() < 0.3)))
+                p.exits_at_end.append((h, "qubit " + nm))
+            continue
         if kind == "main":
             lines, h, key = p.block("    ", rng.random() < 0.8, "m%d" % b, rng.choice(["var", "arr", "arr"]), rng.randint(2, 3))
             main += lines
@@ -124,6 +138,27 @@ def gen(rng):
                 p.toks += renumber(body_toks, h, h0 + i); p.nh += 1
                 main.append("    hf%d();" % b)
             p.echoes += ne * calls; p.draws_per_shot += nd * calls; p.nq += (p.nq - nq0) * (calls - 1)
+        elif rng.random() < 0.5:
+            # an object owning a tracked register: reported as one entry when the object dies - all elements measured, or '?'
+            k = rng.randint(2, 3)
+            cname = "TA%d" % b
+            p.src_classes.append("class %s {\n    @tracked public qubit[%d] fa;\n    public constructor() -> %s = default;\n}" % (cname, k, cname))
+            h = p.nh; p.nh += 1
+            p.nq += k
+            p.toks += ["D", str(k)]
+            main.append("    %s o%d = new %s();" % (cname, b, cname))
+            mode = rng.choice(["all", "some", "last-only", "first-only", "none", "all-then-reset-first"])
+            for i in range(k):
+                if rng.random() < 0.6:
+                    main.append("    " + p.gate("o%d.fa[%d]" % (b, i), h, i))
+                if mode in ("all", "all-then-reset-first") or (mode == "some" and rng.random() < 0.5) or (mode == "last-only" and i == k - 1) \
+                        or (mode == "first-only" and i == 0):
+                    main.append("    " + p.measure("o%d.fa[%d]" % (b, i), h, i, echo=(rng.random() < 0.3)))
+            if mode == "all-then-reset-first":
+                main.append("    reset o%d.fa[0];" % b); p.toks += ["R", str(h), "0"]; p.draws_per_shot += 1
+            main.append("    destroy o%d;" % b)
+            p.toks += ["E", str(h), hx("%s.fa" % cname)]
+            p.toks += ["K", str(h)]; p.draws_per_shot += k
         else:
             k = rng.randint(1, 2)
             cname = "TQ%d" % b
